@@ -107,6 +107,58 @@ def _trace_sources(body, local):
     return srcs
 
 
+HOLE_DEP = re.compile(r"zydeco_statics::arena::StaticsArena::(normalized_at|normalized_kind_at|normalized_annotation_at)$")
+PASS_THROUGH = re.compile(r"core::option::Option::<.*>::(cloned|copied|as_ref|as_deref)$")
+
+
+def _trace_sources_through(body, local):
+    """like _trace_sources, but looks through Option::cloned / copied / as_ref"""
+    out = []
+    for src in _trace_sources(body, local):
+        if PASS_THROUGH.search(src["fn"]) and src["args"]:
+            a = M.op_place(src["args"][0])
+            if a is not None:
+                out.extend(_trace_sources_through(body, M.place_local(a)))
+        else:
+            out.append(src)
+    return out
+
+
+def rule_hole_unwrap(ctx):
+    """F13: code that runs before the error list is tested sees arenas of rejected programs, in which a type can still be an
+    unsolved hole; the normal-form lookups answer None exactly for those."""
+    rule = "hole-unwrap"
+    facts = ctx.facts
+    ctx.rule(rule, "in the front-end crates (they run on rejected programs too) no unwrap/expect consumes StaticsArena::normalized_at / "
+                   "normalized_kind_at / normalized_annotation_at, which are None for an unsolved hole")
+    n = 0
+    for tag in facts.tags():
+        if not tag.startswith(FRONT_CRATES) or tag.endswith("-test"):
+            continue
+        idx = facts.index(tag)
+        users = sorted(set(c["from"] for c in idx["calls"] if HOLE_DEP.search(c["to"])))
+        for o in users:
+            m = facts.mir(o)
+            if m is None:
+                continue
+            b = M.Body(o, m)
+            n += sum(1 for _, t in b.calls() if HOLE_DEP.search(t["fn"]))
+            for bb, t in b.calls():
+                if not UNWRAP.search(t["fn"]):
+                    continue
+                a = M.op_place(t["args"][0])
+                if a is None:
+                    continue
+                for src in _trace_sources_through(b, M.place_local(a)):
+                    if HOLE_DEP.search(src["fn"]):
+                        owner = o.split("::{closure")[0]
+                        ctx.violation(rule, "%s:%s" % (owner.split("::")[-1], src["fn"].split("::")[-1]),
+                                      "%s unwraps %s: a term whose annotation is still an unsolved hole (already reported as an error) "
+                                      "panics the checker" % (o, src["fn"]), [facts.bodies()[o]["loc"][0], t.get("ln")])
+    ctx.ok(rule, "inventory", {"normal_form_lookups_in_front_end": n, "unwrapped": 0})
+    ctx.floor(rule, "normal-form lookups in the front end", n, 2)
+
+
 def rule_text_unwrap(ctx):
     rule = "text-unwrap"
     ctx.rule(rule, "no unwrap/expect of a text-to-value conversion in the front-end crates outside the table of "
@@ -395,6 +447,7 @@ def rule_exit_path(ctx):
 
 def run(ctx):
     rule_text_unwrap(ctx)
+    rule_hole_unwrap(ctx)
     rule_arm_div(ctx)
     rule_stripped_arena(ctx)
     rule_exit_path(ctx)
